@@ -203,10 +203,17 @@ func runC12(r *rt.Runner) {
 					return
 				}
 			}
+			checkStart := rng.IntN(3) == 0
+			if checkStart {
+				// the start check is made once, on the first call
+				parts = append([]string{"%!PS-Adobe-3.0\n"}, parts...)
+				c.Count("multi-call runs with the start check enabled")
+			}
 			whole := strings.Join(parts, " ")
-			c.SetDetail(func() string { return "program: " + whole })
+			c.SetDetail(func() string { return fmt.Sprintf("CheckStart=%v program: %s", checkStart, whole) })
 			one := postscript.NewInterpreter()
 			one.MaxOps = 200000
+			one.CheckStart = checkStart
 			err1 := one.ExecuteString(whole)
 			if err1 != nil {
 				c.Skip("program fails in one call (a failing call ends the comparison)")
@@ -225,6 +232,7 @@ func runC12(r *rt.Runner) {
 			sort.Ints(cuts)
 			multi := postscript.NewInterpreter()
 			multi.MaxOps = 200000
+			multi.CheckStart = checkStart
 			prev := 0
 			inside := false
 			depth := 0
